@@ -5,7 +5,7 @@
 # 1. confirms: suite passes with the change, demo fails with it, demo passes without it
 # 2. runs the checks of the given properties (default: <ID>) against the worktree
 ID=$1; TIER=${2:-quick}; shift; shift; PROPS=${@:-$ID}
-WT=/tmp/seed-$ID; OUT=/tmp/seed-out/$ID
+PFX=${SEEDPFX:-seed}; WT=/tmp/$PFX-$ID; OUT=/tmp/$PFX-out/$ID
 export GOFLAGS=-mod=mod GOPROXY=off GOSUMDB=off GOTOOLCHAIN=local
 cd $WT || exit 2
 git checkout -q -- . ; rm -f larking/seed_demo_test.go; git checkout -q --detach $(git -C /repo rev-parse HEAD); cp $OUT/seed_demo_test.go larking/seed_demo_test.go
